@@ -12,6 +12,7 @@ import NutsProofs.Lemmas.C18X
 import NutsModel.C18.RCacheOld
 import NutsProofs.Lemmas.C18Jwk
 import NutsProofs.Lemmas.C18Chain
+import NutsProofs.Lemmas.C18Time
 
 namespace Nuts.C18.Props
 open Nuts Nuts.C18
@@ -685,6 +686,46 @@ example : chainResolve [.notFound, .fail "deactivated", .ok 7] = (.fail "deactiv
 
 example : chainResolve ([.notFound] ++ .fail "db" :: [.ok 1]) = (.fail "db", 2) :=
   chain_stops_at_first_answer [.notFound] [.ok 1] (.fail "db") (by simp) (by simp)
+
+/-! ### Deepening round 3: resolution at a point in time (`ResolveMetadata.ResolveTime` -> `Latest(did, resolveTime)`) -/
+
+/-- `didsubject.Resolver.Resolve` hands `metadata.ResolveTime` (when given) to `Latest` as the time bound -/
+theorem fact_local_resolve_time : Facts.C18.localResolveTimeFlow =
+    ["if metadata != nil && metadata.ResolveTime != nil", "notAfter = metadata.ResolveTime", "doc, err := didDocumentMananager.Latest(id, notAfter)"] := by decide
+
+/-- **The lookup returns the NEWEST version that existed at the resolve time** — for every table and every time: no row of
+    this DID with `updated_at <= t` has a higher version than the one returned … -/
+theorem local_lookup_newest_at_time (rows : List DocRow) (d : Bytes) (t : Int) (r : DocRow) (h : sqlLatest rows d t = some r) :
+    ∀ r' ∈ rows, r'.did = d → r'.updatedAt ≤ t → r'.version ≤ r.version :=
+  sqlLatest_newest rows d t r h
+
+/-- … and "not found" means exactly that NO version of this DID existed at that time -/
+theorem local_lookup_not_found_iff (rows : List DocRow) (d : Bytes) (t : Int) :
+    sqlLatest rows d t = none ↔ ∀ r' ∈ rows, r'.did = d → ¬ r'.updatedAt ≤ t :=
+  sqlLatest_none_iff rows d t
+
+/-- **Deactivation holds from its moment on** (all histories, all tables, all later resolve times): when the highest
+    version of a DID is a deactivation written at `r.updatedAt`, every resolution at a time `t` at or after it — with or
+    without `ResolveTime`, whatever earlier active versions and whatever other DIDs the table holds — is refused without
+    `AllowDeactivated`, and with it returns this DID's document marked deactivated -/
+theorem deactivated_from_then_on (rows : List DocRow) (d : DID) (r : DocRow) (t : Int)
+    (hr : r ∈ rows) (hd : r.did = d.str) (hi : r.active = false)
+    (hmax : ∀ r' ∈ rows, r'.did = d.str → r'.version ≤ r.version)
+    (huniq : ∀ r' ∈ rows, r'.did = d.str → r'.version = r.version → r' = r)
+    (ht : r.updatedAt ≤ t) :
+    sqlResolveLocal rows t false d = .err "deactivated" ∧
+    sqlResolveLocal rows t true d = .ok { docID := d.str, deactivated := true } :=
+  deactivated_from_then_on_l rows d r t hr hd hi hmax huniq ht
+
+/-- non-vacuity: active at 10, deactivated at 20, (case variant re-activated at 30): at 15 the active version answers, at 20
+    and 1000 the DID is deactivated, at 5 it is not found -/
+example :
+    let d : DID := { method := sWeb, id := [97] }
+    let rows : List DocRow := [{ did := d.str, version := 0, updatedAt := 10, active := true }, { did := d.str, version := 1, updatedAt := 20, active := false },
+                               { did := [65], version := 2, updatedAt := 30, active := true }]
+    sqlResolveLocal rows 15 false d = .ok { docID := d.str } ∧ sqlResolveLocal rows 20 false d = .err "deactivated" ∧
+    sqlResolveLocal rows 1000 false d = .err "deactivated" ∧ sqlResolveLocal rows 5 false d = .err "not-found" ∧
+    sqlResolveLocal rows 1000 true d = .ok { docID := d.str, deactivated := true } := by decide
 
 /-! ### Deepening round 2: did:x509 (vdr/didx509) — the document is bound to the identifier AND to the presented chain -/
 
